@@ -85,11 +85,13 @@ def sync_scenario(exe, shim, root, seed, stats, tier):
             continue
         # did the interrupted run shrink a parity file without having replaced the content file yet?
         shrunk = False
+        torn = False
         if os.path.exists(klog):
             renamed = False
             for line in open(klog, errors='replace'):
                 t = line.rstrip('\n').split(' ')
                 if len(t) < 3: continue
+                if t[1] == 'KILL-mid-pwrite' and '/par/' in t[2]: torn = True
                 if t[1] == 'rename' and '/content' in line: renamed = True
                 if t[1] == 'ftruncate' and t[2] in par_sizes and not renamed:
                     kv = dict(x.split('=') for x in t[3:] if '=' in x)
@@ -116,6 +118,9 @@ def sync_scenario(exe, shim, root, seed, stats, tier):
             shutil.rmtree(a.root); shutil.copytree(work, a.root, symlinks=True); shutil.rmtree(work)
             if p:
                 problem = ('after %s: ' % ('graceful stop' if mode == 'sigint' else 'kill')) + p
+                if torn and a.nparity == 1:
+                    # the only parity block of a stripe was half written when the process died
+                    problem += ' [torn-parity-write]'
         if not problem:
             if not adds_only and rng.chance(1, 2):
                 # before resuming, files deleted in the interrupted change set come back with the same bytes
@@ -204,6 +209,40 @@ def fix_scenario(exe, shim, root, seed, stats, tier):
     a.destroy()
     return out or None
 
+def directed_torn(exe, shim, root):
+    """the recorded finding C07-torn-parity, replayed on every run: one parity, a file added next to a synced one,
+    sync killed in the middle of the parity pwrite of their common stripe, the disk of the old file lost"""
+    a = e2e.Arr(root, exe, ndisks=2, nparity=1, ncontent=1)
+    rng = e2e.Rng(13)
+    s = sim.Sim(a, rng, weird_names=False)
+    A = rng.bytes(3 * 1024)
+    a.write('d1', 'A', A, s.tick())
+    s.sync()
+    a.write('d2', 'N', rng.bytes(3 * 1024), s.tick())
+    lg = os.path.join(vlib.scratch(), 'dtorn.log')
+    backup = root + '.bak'
+    shutil.copytree(a.root, backup, symlinks=True)
+    a.cmd('sync', '--test-io-cache=1', env={'LD_PRELOAD': shim, 'VERIF_LOG': lg}, uselog=False)
+    k = None
+    for line in open(lg, errors='replace'):
+        t = line.split(' ')
+        if len(t) > 2 and t[1] == 'pwrite' and '/par/' in t[2]:
+            k = int(t[0]); break
+    os.unlink(lg)
+    shutil.rmtree(a.root); shutil.copytree(backup, a.root, symlinks=True); shutil.rmtree(backup)
+    if k is None:
+        a.destroy(); return None
+    r = a.cmd('sync', '--test-io-cache=1', env={'LD_PRELOAD': shim, 'VERIF_KILL': '%d:mid' % k, 'VERIF_LOG': lg}, uselog=False)
+    torn = os.path.exists(lg) and any('KILL-mid-pwrite' in l and '/par/' in l for l in open(lg, errors='replace'))
+    if os.path.exists(lg): os.unlink(lg)
+    fx.wipe_disk(a, 'd1')
+    f = a.cmd('fix')
+    got = a.read('d1', 'A') if os.path.isfile(a.path('d1', 'A')) else None
+    a.destroy()
+    if r.rc == -9 and torn and got != A:
+        return 'after kill: previously synced file d1/A not recovered after losing d1 (fix exit %d); directed history: one parity, d1/A synced, d2/N added, sync killed in the middle of the parity pwrite (call %d) of their first common stripe [torn-parity-write]' % (f.rc, k)
+    return None
+
 def directed_shrink(exe, shim, root):
     """the recorded finding C07-shrink, replayed on every run: returns violation text or None"""
     a = e2e.Arr(root, exe, ndisks=2, nparity=1, ncontent=1)
@@ -257,6 +296,10 @@ def main(tier, seed):
     chk.extra['directed_C07_shrink'] = dv or 'not reproduced'
     if dv:
         chk.violation('C07 ' + dv, dv, True, 'known_shrink')
+    dv = directed_torn(exe, shim, os.path.join(vlib.scratch(), 'dtorn'))
+    chk.extra['directed_C07_torn'] = dv or 'not reproduced'
+    if dv:
+        chk.violation('C07 ' + dv, dv, True, 'known_torn')
     ns, nf = (24, 10) if tier == 'quick' else (160, 60)
     stats = {'runs': 0, 'not_fired': 0, 'modes': {}, 'recover_meanwhile': 0}
     jobs = [('sync', i) for i in range(ns)] + [('fix', i) for i in range(nf)]
